@@ -76,12 +76,16 @@ Inductive event :=
 | XCalled (k : xkind)
 | XReturned (k : xkind) (ok : bool)
 | EGateClosed
-| EGateOpen.
+| EGateOpen
+(* an Add(name, ...) with invalid arguments (nil request, nil target, target
+   without addresses, empty name) issued by the first client goroutine has
+   returned; ok = no error *)
+| EAddInvalid (ok : bool).
 
 Definition is_marker (e : event) : bool :=
   match e with
   | EAddCalled | EAdd _ | EReconnectCalled | EReconnectReturned _ | ERemoveCalled | ERemoveReturned _
-  | EHang | EStall | XCalled _ | XReturned _ _ | EGateClosed | EGateOpen => true
+  | EHang | EStall | XCalled _ | XReturned _ _ | EGateClosed | EGateOpen | EAddInvalid _ => true
   | _ => false
   end.
 
@@ -360,6 +364,13 @@ Definition vis (c : cfg) (s : st) (e : event) : list st :=
       | _ => []
       end
   | EGateClosed | EGateOpen => [s]
+  | EAddInvalid ok =>
+      (* refused whatever the state of the name, and a refused call changes nothing *)
+      if ok then []
+      else match s_add s, s_rc s, s_rmc s || s_rr s || negb (x_none s) with
+           | AddNone, RcNone, false => [s]
+           | _, _, _ => []
+           end
   (* --- the goroutine ------------------------------------------------- *)
   | ECred ok =>
       match s_pc s with
